@@ -393,6 +393,53 @@ def known_findings(prop):
     return out
 
 
+SMOKE_CASE = {"asset": "B1", "exchanges": ["E0"], "holders": ["H0"], "country": "us", "env": None, "sched": [[1970, "fifo"]],
+              "from": None, "to": None, "allow_neg": False,
+              "ins": [{"row": 1, "ts": [1546300800000000, 0], "exch": 0, "holder": 0, "type": "BUY", "spot": 1000000000000, "crypto_in": 100000000000},
+                      {"row": 2, "ts": [1590969600000000, 0], "exch": 0, "holder": 0, "type": "BUY", "spot": 2000000000000, "crypto_in": 100000000000}],
+              "outs": [{"row": 3, "ts": [1609459200000000, -3600], "exch": 0, "holder": 0, "type": "SELL", "spot": 3000000000000,
+                        "crypto_out_no_fee": 50000000000, "crypto_fee": 0}],
+              "intras": []}
+_SMOKE_CODE = r"""
+import importlib, json, pkgutil, sys
+from harness import core, hist
+core.impl_env_setup()
+import rp2
+bad = []
+for m in pkgutil.walk_packages(rp2.__path__, "rp2."):
+    try:
+        importlib.import_module(m.name)
+    except Exception as exc:  # noqa: BLE001
+        bad.append(f"import {m.name}: {type(exc).__name__}: {exc}")
+r = hist.impl_compute(core.SMOKE_CASE)
+if "ok" not in r:
+    bad.append(f"the two-purchases-one-sale history fails: {r}")
+elif [(f["ev"], f["lot"], f["amt"]) for f in r["ok"]["fractions"]] != [(3, 1, 50000000000)]:
+    bad.append(f"the two-purchases-one-sale history under FIFO gives fractions {r['ok']['fractions']}")
+print("SMOKE " + json.dumps(bad))
+"""
+
+
+def smoke():
+    """None if every module of rp2 imports and the trivial history (two purchases, one sale, FIFO) computes; otherwise a text.
+    A tree on which the implementation cannot run at all must not pass because every generated case was skipped.
+    Cached per source tree (same key as the shared runs)."""
+    from harness import l2
+    got = l2.cache_get("smoke")
+    if got is None:
+        env = dict(os.environ, PYTHONPATH=VERIF + os.pathsep + os.path.join(REPO, "src"), PYTHONHASHSEED="0", PYTHONDONTWRITEBYTECODE="1")
+        try:
+            p = subprocess.run([sys.executable, "-c", _SMOKE_CODE], env=env, cwd=tmp_root(), stdout=subprocess.PIPE, stderr=subprocess.PIPE,
+                               text=True, timeout=300)
+            line = [l for l in p.stdout.splitlines() if l.startswith("SMOKE ")]
+            bad = json.loads(line[-1][6:]) if line else [f"the smoke run died (exit {p.returncode}): {p.stderr[-400:]}"]
+        except subprocess.TimeoutExpired:
+            bad = ["the smoke run timed out"]
+        got = {"bad": bad}
+        l2.cache_put("smoke", got)
+    return "; ".join(got["bad"])[:600] or None
+
+
 class Outcome:
     """Collects what a check run found; finish() writes evidence, prints lines, returns exit code."""
 
@@ -410,6 +457,10 @@ class Outcome:
 
     def finish(self, proofs, build, level="proof"):
         os.makedirs(EVIDENCE, exist_ok=True)
+        sm = smoke()
+        if sm:
+            self.violation("the implementation does not run: " + sm, SMOKE_CASE, tags={"smoke"})
+        self.coverage["implementation_smoke_run"] = "failed" if sm else "ok"
         known = known_findings(self.prop)
         printed_known = set()
         real = []
